@@ -1,0 +1,48 @@
+//go:build verif
+
+// Contracts for the deductive verification in /verif (comment-only; compiled code is unaffected).
+package static
+
+// the peer table of this implementation (model of the interface's peersAll)
+//@ spec staticPeersAll(p any) map[uint64]*core.Endpoint = unbox(p, "*Service").peers
+// entries are present and no two ids carry the same host name (C16: a caller's name identifies at most one peer)
+//@ spec tableWf(m map[uint64]*core.Endpoint) bool = m != nil && (forall id uint64 :: id in m ==> m[id] != nil) && (forall a uint64, b uint64 :: a != b && a in m && b in m ==> m[a].Name != m[b].Name)
+
+//@ func (Parameter).apply
+//@ requires p != nil
+//@ modifies p.logLevel, p.monitor, p.peers
+
+//@ func parseAndCheckParameters
+//@ requires [options] forall i int :: 0 <= i && i < len(params) ==> params[i] != nil
+//@ ensures [err] result1 != nil ==> result0 == nil
+//@ ensures [ok] result1 == nil ==> result0 != nil
+//@ loop #1
+//@ invariant [range] 0 <= _n && _n <= len(params)
+
+//@ func New
+//@ requires [options] forall i int :: 0 <= i && i < len(params) ==> params[i] != nil
+//@ modifies log
+//@ ensures [err] result1 != nil ==> result0 == nil
+//@ ensures [ok] result1 == nil ==> result0 != nil && tableWf(result0.peers)
+//@ ensures [ids] result1 == nil ==> (forall id uint64 :: id in result0.peers ==> result0.peers[id].ID == id)
+//@ loop #1
+//@ invariant [maps] servicePeers != nil && fresh(servicePeers) && peerNames != nil && fresh(peerNames)
+//@ invariant [dom] forall id uint64 :: (id in servicePeers) <==> visited()[id]
+//@ invariant [entries] forall id uint64 :: id in servicePeers ==> servicePeers[id] != nil && fresh(servicePeers[id]) && allocated(servicePeers[id]) && servicePeers[id].ID == id && servicePeers[id].Name in peerNames
+//@ invariant [names] forall n string :: n in peerNames ==> (exists id uint64 :: id in servicePeers && servicePeers[id].Name == n)
+//@ invariant [unique] forall a uint64, b uint64 :: a != b && a in servicePeers && b in servicePeers ==> servicePeers[a].Name != servicePeers[b].Name
+
+//@ func (*Service).All
+//@ requires s != nil && tableWf(s.peers)
+//@ ensures [copy-dom] result != nil && fresh(result) && (forall id uint64 :: (id in result) <==> (id in s.peers))
+//@ ensures [copy-val] forall id uint64 :: id in result ==> result[id] != nil && result[id].Name == s.peers[id].Name && result[id].ID == s.peers[id].ID && result[id].Port == s.peers[id].Port
+//@ loop #1
+//@ invariant [res] res != nil && fresh(res)
+//@ invariant [sub] forall id uint64 :: visited()[id] ==> id in s.peers
+//@ invariant [dom] forall id uint64 :: (id in res) <==> visited()[id]
+//@ invariant [vals] forall id uint64 :: id in res ==> res[id] != nil && fresh(res[id]) && res[id].Name == s.peers[id].Name && res[id].ID == s.peers[id].ID && res[id].Port == s.peers[id].Port
+
+//@ func (*Service).Peer
+//@ requires s != nil && tableWf(s.peers)
+//@ ensures [found] result1 == nil ==> result0 != nil && id in s.peers && result0.Name == s.peers[id].Name && result0.ID == s.peers[id].ID
+//@ ensures [known] id in s.peers ==> result1 == nil
